@@ -96,15 +96,15 @@ Print Assumptions C17_ht_free_list_nonempty.
 (* 2. operation sequences (the instance the T2 component HtScript runs: values N, callback equality) *)
 (* ------------------------------------------------------------------------------------------------ *)
 
-(* For every script of insert / insert_no_check / remove / find / find_next / find_next_with_collision_cb
-   (everything except lyht_dup) on lyht_new(2^k, resize): the printed results are those of the abstract
+(* For every script of insert / insert_no_check / remove / find / find_next / find_next_with_collision_cb /
+   lyht_dup (continuing on the duplicate) on lyht_new(2^k, resize): the printed results are those of the abstract
    run; when the abstract run completes, the table reached satisfies Rep (so by the first theorem no slot
    is lost or used twice in any reachable state: every prefix of a script is a script) and abstracts to
    the abstract result; when it stops, it stops at a C assert (E_ABORT: table full with resize = 0, a
    checked re-insertion meeting a duplicate stored with insert_no_check) - never E_OOB, never E_FUEL.
-   Length bound: 3 * 2^20 operations, so that used * 100 does not wrap (see C17_ht_pct_wraps_refuted). *)
+   Length bound: 3 * 2^26 operations, so that size << 1 stays inside uint32_t. *)
 Theorem C17_ht_run_refines :
-  forall k rz ops, k <= 20 -> rz <= 1 -> N.of_nat (length ops) <= 3145728 -> forallb not_dup ops = true ->
+  forall k rz ops, k <= 26 -> rz <= 1 -> N.of_nat (length ops) <= 201326592 ->
     lyht_new 0 (2 ^ k) rz = Ok (init_tab 0 (new_sz k) rz) /\
     match a_nrun (mkamm rz (repeat [] (N.to_nat (new_sz k)))) ops [] with
     | (outs, Ok m') => exists t' cs' fl',
@@ -117,7 +117,7 @@ Print Assumptions C17_ht_run_refines.
 (* With resizing enabled the free list is non-empty in every reachable state, whatever the script
    (also with insert_no_check): assert(rec_idx < ht->size) cannot fail. *)
 Theorem C17_ht_run_free_rec :
-  forall k ops, k <= 20 -> N.of_nat (length ops) <= 3145728 -> forallb not_dup ops = true ->
+  forall k ops, k <= 26 -> N.of_nat (length ops) <= 201326592 ->
     match nht_run (init_tab 0 (new_sz k) 1) ops [] with
     | (_, Ok t') => ht_ff t' < ht_size t'
     | (_, Err e) => e = E_ABORT
@@ -125,36 +125,46 @@ Theorem C17_ht_run_free_rec :
 Proof. exact nht_new_run_free_rec. Qed.
 Print Assumptions C17_ht_run_free_rec.
 
-(* Scripts of checked operations (no insert_no_check, no dup) with resizing enabled never stop at all:
+(* Scripts of checked operations (no insert_no_check) with resizing enabled never stop at all:
    no assertion of hash_table.c fails, every access is in bounds, the loops terminate. *)
 Theorem C17_ht_checked_run_total :
-  forall k ops, k <= 20 -> N.of_nat (length ops) <= 3145728 -> forallb checked_op ops = true ->
+  forall k ops, k <= 26 -> N.of_nat (length ops) <= 201326592 -> forallb checked_op ops = true ->
     exists outs t' cs' fl',
       nht_run (init_tab 0 (new_sz k) 1) ops [] = (outs, Ok t') /\ Rep 0 t' cs' fl' /\
       a_nrun (mkamm 1 (repeat [] (N.to_nat (new_sz k)))) ops [] = (outs, Ok (abs 0 t' cs')).
 Proof. exact nht_new_checked_total. Qed.
 Print Assumptions C17_ht_checked_run_total.
 
-(* Finding (defect of the code, kept in the model): lyht_dup() copies hlists, recs and used but leaves
-   first_free_rec = 0.  An insert into the duplicate reuses record 0: the value stored there is lost (find
-   answers LY_ENOTFOUND although it was never removed), record 0 is in two chains, and the second insert
-   trips assert(rec_idx < ht->size) (with NDEBUG: write through recs[0xFFFFFFFF]).  So Rep is NOT preserved
-   by lyht_dup, which is why the sequence theorems exclude it. *)
-Theorem C17_ht_dup_refuted :
-  fst (nht_run (init_tab 0 8 1) [OpIns 1 1; OpDup; OpIns 2 2; OpFind 1 1] [])
-    = [(LY_ERR_SUCCESS, Some 1); (LY_ERR_SUCCESS, None); (LY_ERR_SUCCESS, Some 2); (LY_ERR_ENOTFOUND, None)] /\
-  snd (nht_run (init_tab 0 8 1) [OpIns 1 1; OpDup; OpIns 2 2; OpIns 3 3] []) = Err E_ABORT.
-Proof. exact nht_dup_breaks_table. Qed.
-Print Assumptions C17_ht_dup_refuted.
+(* lyht_dup(): the duplicate satisfies Rep with the same chains and the same free list and holds the same
+   content; resize 2 becomes 1.  (Before /repo commit d69e9c2 first_free_rec was not copied and this was
+   refuted: an insert into the duplicate reused record 0.  The former witness scripts are kept below.) *)
+Theorem C17_ht_dup_preserves_rep :
+  forall V (vdef : V) (veq : bool -> V -> V -> bool) t cs fl, Rep vdef t cs fl ->
+    exists t', lyht_dup vdef t = Ok t' /\ Rep vdef t' cs fl /\
+               abs vdef t' cs = mkamm (dup_rz (ht_resize t)) (a_bk (abs vdef t cs)).
+Proof. exact @lyht_dup_sim. Qed.
+Print Assumptions C17_ht_dup_preserves_rep.
 
-(* Finding (why the sequence theorems carry a length bound): r = used * 100 / size is computed in
-   uint32_t.  With 2^26 records allocated and 55 000 000 in use (82 %) the product wraps and r = 17 < 25:
-   the next remove shrinks the table to 2^25 records, fewer than it holds. *)
-Theorem C17_ht_pct_wraps_refuted :
-  let t := mkht 55000000 67108864 2 0 (@nil hlist) (@nil (hrec N)) in
-  75 * ht_size t <= ht_used t * 100 /\ ht_used t < ht_size t /\ pct t < LYHT_SHRINK_PERCENTAGE.
-Proof. exact pct_wraps_refuted. Qed.
-Print Assumptions C17_ht_pct_wraps_refuted.
+Example C17_ht_dup_regression :
+  fst (nht_run (init_tab 0 8 1) [OpIns 1 1; OpDup; OpIns 2 2; OpFind 1 1] [])
+    = [(LY_ERR_SUCCESS, Some 1); (LY_ERR_SUCCESS, None); (LY_ERR_SUCCESS, Some 2); (LY_ERR_SUCCESS, Some 1)] /\
+  is_ok (snd (nht_run (init_tab 0 8 1) [OpIns 1 1; OpDup; OpIns 2 2; OpIns 3 3] [])) = true.
+Proof. exact nht_dup_regression. Qed.
+
+(* The load percentage r = used * 100 / size is exact for every used and size (64-bit product since /repo
+   commit be54a69; with the uint32_t product it was refuted beyond 2^25 records): the enlarge test r >= 75
+   and the shrink test r < 25 compare the true load.  The remaining length bound of the sequence theorems
+   (3 * 2^26 operations) only keeps size << 1 inside uint32_t. *)
+Theorem C17_ht_pct_exact :
+  forall V (t : ht V), 0 < ht_size t ->
+    (LYHT_ENLARGE_PERCENTAGE <= pct t <-> 75 * ht_size t <= ht_used t * 100) /\
+    (pct t < LYHT_SHRINK_PERCENTAGE <-> ht_used t * 100 < 25 * ht_size t).
+Proof. exact @pct_exact. Qed.
+Print Assumptions C17_ht_pct_exact.
+
+Example C17_ht_pct_former_witness :
+  pct (mkht 55000000 67108864 2 0 (@nil hlist) (@nil (hrec N))) = 81.
+Proof. exact pct_former_witness. Qed.
 
 (* ------------------------------------------------------------------------------------------------ *)
 (* 3. dictionary: reference counts balance                                                          *)
@@ -173,7 +183,7 @@ Print Assumptions C17_ht_pct_wraps_refuted.
    storing exactly the finite map: a record for precisely the strings with a positive count, with that
    count. *)
 Theorem C17_dict_refs_balance :
-  forall k ops, k <= 20 -> N.of_nat (length ops) <= 3145728 ->
+  forall k ops, k <= 26 -> N.of_nat (length ops) <= 201326592 ->
     exists d' cs' fl',
       dict_run (init_tab dvdef (new_sz k) 1) ops [] = (fst (srun (fun _ => 0) ops []), Ok d') /\
       DRep d' cs' fl' /\ forall x, dcnt d' cs' x = snd (srun (fun _ => 0) ops []) x.
@@ -189,7 +199,7 @@ Print Assumptions C17_dict_counts.
 
 (* Hence after removing every reference taken the dictionary is empty: used = 0. *)
 Theorem C17_dict_release_all_empty :
-  forall k ops, k <= 20 -> N.of_nat (length ops) <= 3145728 ->
+  forall k ops, k <= 26 -> N.of_nat (length ops) <= 201326592 ->
     (forall x, snd (srun (fun _ => 0) ops []) x = 0) ->
     exists d', dict_run (init_tab dvdef (new_sz k) 1) ops [] = (fst (srun (fun _ => 0) ops []), Ok d') /\
                ht_used d' = 0.
@@ -199,7 +209,7 @@ Print Assumptions C17_dict_release_all_empty.
 (* lydict_remove of a string that is not held reports LY_ENOTFOUND and changes nothing (one surplus
    release is detected, it cannot free a string some other holder still uses). *)
 Theorem C17_dict_remove_not_held :
-  forall d cs fl s n, DRep d cs fl -> Bnd (abs dvdef d cs) n -> 4 * n <= 33554432 ->
+  forall d cs fl s n, DRep d cs fl -> Bnd (abs dvdef d cs) n -> 4 * n <= 2147483648 ->
     dcnt d cs s = 0 -> lydict_remove d s = Ok (LY_ERR_ENOTFOUND, d).
 Proof. exact dict_remove_not_held. Qed.
 Print Assumptions C17_dict_remove_not_held.
